@@ -244,7 +244,7 @@ class Association(object):
             #    return setattr(other_inst, ref_name, value)
         
         for ref_key, primary_key in zip(self.source_keys, self.target_keys):
-            prop = getattr(source_class.clazz, ref_key, None)
+            prop = source_class.clazz.__dict__.get(ref_key, None)
             prop = property(partial(fget, ref_name=primary_key, alt_prop=prop), 
                             partial(fset, name=ref_key, ref_name=primary_key, alt_prop=prop))
             setattr(source_class.clazz, ref_key, prop)
